@@ -16,6 +16,8 @@ def distinct(e):
 def model(ctx):
     T = ctx.thorough
     ctx.tlc_mc("Sys_AuthGate", "MC_AuthGate_big.cfg" if T else "MC_AuthGate.cfg", timeout=1500)
+    if T:
+        ctx.tlc_mc("Sys_AuthGate", "MC_AuthGate_3c.cfg", timeout=1500)     # 3 connections x 2 operations
     for m in ("FlagPerConn", "FlagNeedsVerdict", "HijackChecksFlag", "SMOnlyOnOk", "MasqOnReject"):
         ctx.tlc_mc("Sys_AuthGate", "MC_AuthGate_mut%s.cfg" % m, expect_violation=True)
     scns = ctx.tlc_gen("Sys_AuthGate", "Gen_AuthGate.cfg", num=300 if T else 40, depth=60)
